@@ -15,10 +15,11 @@ except Exception:  # pragma: no cover
 STATE_LABELINGS = {
     'int': lambda i: i,
     'rev': lambda i: 9 - i,                        # sorted order is the reverse of spec order
-    'str': lambda i: 'zyxw'[i],                    # sortable, reversed
-    'tup': lambda i: [(1, 0), (0, 1), (0, 0), (1, 1)][i],
-    'mix': lambda i: [0, 'b', (1, 2), None][i],    # not sortable
+    'str': lambda i: 'zyxwvuts'[i],                # sortable, reversed
+    'tup': lambda i: [(1, 0), (0, 1), (0, 0), (1, 1), (2, 0), (0, 2), (2, 1), (1, 2)][i],
+    'mix': lambda i: [0, 'b', (1, 2), None, 'e', (3,), 2.5, frozenset({7})][i],    # not sortable
     'fd': (lambda i: frozendict({'x': i // 2, 'y': i % 2})) if frozendict else (lambda i: ('fd', i)),
+    'strfwd': lambda i: 'state%d' % i,
 }
 ACTION_LABELINGS = {
     'ab': lambda a: a,
@@ -173,3 +174,60 @@ def proper_mdps(n, gammas, rewards_by_gamma, inits, action_sets=(('a',), ('a', '
                     break
                 for init in inits:
                     yield ('mdp', n, T + (gopt,), (goal,), init, gamma)
+
+
+# --------------------------------------------------------------------------- edge-value families
+EPS6 = F(1, 10 ** 6)
+EPS9 = F(1, 10 ** 9)
+
+
+def edge_mdps():
+    """Small hand-structured families that put *values* at the edges of the alphabet: probabilities next to 0 and 1
+    (1e-6, 1e-9), three-outcome distributions, discount 0, long corridors (n = 6, 7).  Simplest first."""
+    one = F(1)
+    # (1) near-one zero-reward self-loops next to a costly exit: must NOT be treated as absorbing
+    for eps in (EPS6, EPS9):
+        for g in (F(9, 10), F(1)):
+            for r_exit in (F(-5), F(-1)):
+                T = ((('a', ((1, one),), F(-1)), ('b', ((2, one),), F(-3))),
+                     (('a', ((1, one - eps), (2, eps)), (F(0), r_exit)),),
+                     (('a', ((2, one),), F(0)),))
+                yield ('mdp', 3, T, (2,), ((0, one),), g)
+                T2 = ((('a', ((0, one - eps), (1, eps)), (F(0), r_exit)), ('b', ((0, one - eps), (1, eps)), F(0))),
+                      (('a', ((1, one),), F(0)),))
+                yield ('mdp', 2, T2, (1,), ((0, one),), g)
+    # (2) tiny branch into a costly state
+    for eps in (EPS6, EPS9):
+        for g in (F(9, 10), F(1)):
+            T = ((('a', ((2, one - eps), (1, eps)), F(-1)), ('b', ((2, one),), F(-2))),
+                 (('a', ((1, F(1, 2)), (2, F(1, 2))), F(-4)),),
+                 (('a', ((2, one),), F(0)),))
+            yield ('mdp', 3, T, (2,), ((0, F(1, 2)), (1, F(1, 2))), g)
+    # (3) three-outcome fans
+    for g in (F(9, 10), F(1)):
+        for costs in ((-1, -2, -3), (-3, -1, -1), (0, -2, -1)):
+            for probs in ((F(1, 4), F(1, 4), F(1, 2)), (F(1, 2), F(1, 4), F(1, 4))):
+                T = ((('a', ((1, probs[0]), (2, probs[1]), (3, probs[2])), F(-1)), ('b', ((4, one),), F(-6))),
+                     (('a', ((4, one),), F(costs[0])),),
+                     (('a', ((4, one),), F(costs[1])), ('b', ((1, one),), F(-1))),
+                     (('a', ((4, one),), F(costs[2])),),
+                     (('a', ((4, one),), F(0)),))
+                yield ('mdp', 5, T, (4,), ((0, one),), g)
+    # (4) discount 0 (myopic) -- a legal discount outside (0,1]; only used by properties that do not restrict it
+    for r0, r1 in ((1, 2), (-1, 0), (2, 1)):
+        T = ((('a', ((1, one),), F(r0)), ('b', ((0, F(1, 2)), (1, F(1, 2))), F(r1))),
+             (('a', ((1, one),), F(10)), ('b', ((0, one),), F(0))))
+        yield ('mdp', 2, T, (), ((0, one),), F(0))
+    # (5) corridors of 6 and 7 states ending in a negative self-loop / a goal
+    for n in (6, 7):
+        for g in (F(9, 10), F(1)):
+            for end in ('loop', 'goal'):
+                rows = []
+                for s in range(n - 1):
+                    rows.append((('a', ((s + 1, one),), F(-1)),))
+                rows.append((('a', ((n - 1, one),), F(-1) if end == 'loop' else F(0)),))
+                yield ('mdp', n, tuple(rows), (), ((0, one),), g)
+
+
+def has_tiny_probability(item):
+    return any(p not in (0, 1) and (p < F(1, 100) or p > F(99, 100)) for row in item[2] for _, d, _ in row for _, p in d)
